@@ -263,6 +263,8 @@ class Union(BackedView):
             raise ValueError(f"selected index {selector} was out of option range {option_count}")
         selected_type = options[selector]
         if selected_type is None:
+            if scope != 1:
+                raise ValueError(f"None option must not be followed by data, scope is {scope}")
             value = None
         else:
             value = selected_type.deserialize(stream, scope - 1)
